@@ -186,6 +186,12 @@ def search(ctx):
         if why:
             found.append({"clause": why, "input": {"op": repr(op), "reply": repr(rep)}, "observed": detail, "size": 1, "case": None,
                           "healthy_case": repr((op, rep))})
+    for case in TWO_IDLE:
+        nh += 1
+        why, detail = two_idle_probe(*case)
+        if why:
+            found.append({"clause": why, "input": {"pool_idle_timeout": case[0], "inner released at": case[1], "outer released at": case[2], "next call at": case[3],
+                                                    "max_pool_size": case[4]}, "observed": detail, "size": 1, "case": None, "two_idle_case": repr(case)})
     for t, gaps, size in FRACTIONAL:
         nh += 1
         why, detail = fractional_idle(t, gaps, size)
@@ -311,6 +317,67 @@ def fractional_idle(timeout, gaps, size):
     return None, None
 
 
+def two_idle_probe(timeout, t_inner, t_outer, t_next, size):
+    """TWO connections idle in the pool, released at different times (a serializer that itself reads through the same PooledClient
+    makes the second checkout while the first is held): at the next checkout every idle connection that has been idle for longer than
+    the timeout is closed, and one that has not is reused rather than a new one opened"""
+    import pymemcache.pool as pool_mod
+    from pymemcache.client.base import PooledClient
+    from harness.refserver import Server
+    srv = Server()
+    world = cs.World([], [], (), 1, srv.feed)
+    server, kw = cs.client_kwargs(dict(tcp=False, default_noreply=False), world)
+    holder = {}
+
+    class Serde:
+        def serialize(self, key, value):
+            if value == b"outer":
+                holder["p"].get(b"inner")
+            return value, 0
+
+        def deserialize(self, key, value, flags):
+            return value
+    kw["serde"] = Serde()
+    clk = [1000, 1000, t_inner, t_outer] + [t_next] * 8
+
+    class FakeTime:
+        @staticmethod
+        def time():
+            return clk.pop(0)
+    saved = pool_mod.time
+    pool_mod.time = FakeTime
+    try:
+        p = PooledClient(server, max_pool_size=size, pool_idle_timeout=timeout, **kw)
+    finally:
+        pool_mod.time = saved
+    holder["p"] = p
+    world.current_op = 0
+    p.set(b"k", b"outer")
+    by0 = world.sent_by_op.get(0, [])
+    inner_sid = [sid for sid, data in by0 if data.startswith(b"get ")][0]
+    outer_sid = [sid for sid, data in by0 if data.startswith(b"set ")][0]
+    world.current_op = 1
+    p.get(b"k")
+    used = sorted({sid for sid, _ in world.sent_by_op.get(1, [])})
+    closed = {sk.sid: sk.closed for sk in world.socks}
+    detail = "inner connection = socket %d (idle %r s), outer = socket %d (idle %r s), the call at %r went out on %r, closed: %r" % (
+        inner_sid, t_next - t_inner, outer_sid, t_next - t_outer, t_next, used, closed)
+    for name, sid, t in (("inner", inner_sid, t_inner), ("outer", outer_sid, t_outer)):
+        if t_next - t > timeout and not closed[sid]:
+            return "pool_idle_timeout=%r: the %s connection had been idle for %r s when the next call came and is still open afterwards" % (timeout, name, t_next - t), detail
+        if t_next - t > timeout and sid in used:
+            return "pool_idle_timeout=%r: the %s connection, idle for %r s, was reused" % (timeout, name, t_next - t), detail
+        if t_next - t <= timeout and closed[sid]:
+            return "pool_idle_timeout=%r: the %s connection, idle for only %r s, was closed" % (timeout, name, t_next - t), detail
+    if (t_next - t_outer <= timeout or t_next - t_inner <= timeout) and not set(used) <= {inner_sid, outer_sid}:
+        return "pool_idle_timeout=%r: a healthy idle connection was available and a new one was opened" % (timeout,), detail
+    if len(p.client_pool.used) != 0:
+        return "connections still checked out: %d" % len(p.client_pool.used), detail
+    return None, None
+
+
+TWO_IDLE = [(60, ti, to, tn, size) for (ti, to, tn) in ((1000, 1050, 1070), (1000, 1000, 1030), (1000, 1005, 1100), (1010, 1050, 1070), (1000, 1060, 1061))
+            for size in (2, 1 << 31)]
 FRACTIONAL = [(t, gaps, size) for t in (0.5, 2.5, 3, 0.001) for gaps in ([t / 2, t], [t, t * 1.5], [t * 1.5, t / 2], [t - t / 8, t + t / 8])
               for size in (1, 2, 1 << 31)]
 
@@ -342,6 +409,10 @@ def replay(ctx, obj):
     if v and v.get("connect_case"):
         why, detail = connect_failure(*eval(v["connect_case"]))
         print(why or "everything opened was closed", detail or "")
+        return bool(why)
+    if v and v.get("two_idle_case"):
+        why, detail = two_idle_probe(*eval(v["two_idle_case"]))
+        print(why or "expired idle connections closed, fresh ones reused", detail or "")
         return bool(why)
     if v and v.get("fractional_case"):
         why, detail = fractional_idle(*eval(v["fractional_case"]))
